@@ -442,7 +442,8 @@ def formulas(draw):
     hi_of = {b[0]: b[2] for b in bounds}
     family = draw(st.sampled_from(["int", "int", "rat", "flt", "flt"]))
     kind = draw(st.sampled_from(["sum", "sum", "sum", "halo", "halo", "maxmin", "maxmin", "maxmin", "maxconst", "sharedarg",
-                                 "sharedarg", "prodmax", "summax", "heav", "heav", "ceil", "ceilmax"]))
+                                 "sharedarg", "prodmax", "summax", "summax", "roofline", "roofline", "roofline", "heav", "heav",
+                                 "ceil", "ceilmax"]))
     has_ceil = kind in ("ceil", "ceilmax")
     profile = draw(st.sampled_from(["pos", "pos", "neg"] if has_ceil else ["pos", "pos", "mixed", "mixed", "mixed", "neg"]))
 
@@ -552,6 +553,27 @@ def formulas(draw):
         tree = ["mul", sum_(1, 2), [draw(st.sampled_from(["max", "max", "min"])), sum_(1, 2), sum_(1, 2)]]
     elif kind == "summax":
         tree = ["add", sum_(1, 2), ["mul", coef(), maxmin()]]
+    elif kind == "roofline":
+        # total energy with leak power = dynamic terms + leak * Max(latencies): a traffic term c/s next to a Max (or Min)
+        # one arm of which grows with s while the other does not depend on s at all
+        a = draw(st.sampled_from(names))
+        others = [x for x in names if x != a]
+        grow = ["mul", ["int", draw(st.sampled_from([1, 2, 4, 8, 10]))], ["sym", a]]
+        if others and draw(st.booleans()):
+            grow = ["mul", grow, ["sym", draw(st.sampled_from(others))]]
+        if others and draw(st.integers(0, 2)) > 0:
+            flat = ["sym", draw(st.sampled_from(others))]
+            if draw(st.booleans()):
+                flat = ["mul", ["int", draw(st.sampled_from([2, 3, 5]))], flat]
+        else:
+            flat = ["int", draw(st.sampled_from([1, 4, 9, 20, 64]))]
+        traffic = ["mul", ["int", draw(st.sampled_from([1, 2, 4, 8, 16, 64]))], ["pow", ["sym", a], ["int", -1]]]
+        mm = [draw(st.sampled_from(["max", "max", "min"])), grow, flat]
+        if draw(st.integers(0, 3)) == 0:
+            mm = ["mul", ["int", draw(st.sampled_from([2, 3]))], mm]
+        tree = ["add", mm, traffic]
+        if draw(st.integers(0, 3)) == 0:
+            tree = ["add", tree, mono()]
     elif kind == "heav":
         pos, neg = affine()
         if draw(st.integers(0, 9)) < 7:
@@ -591,7 +613,7 @@ METRICS = ["ENERGY", "LATENCY", "LATENCY", "ENERGY_DELAY_PRODUCT", "ENERGY|LATEN
 def harvest_cases(draw):
     variant = draw(st.sampled_from(VARIANTS))
     shapes = ("matmul",) if variant == "conv" else ("matmul", "matmul", "matvec", "elementwise", "chain2", "elementwise2")
-    sp = draw(G.specs(shapes=shapes, levels=(2, 2, 3), metrics=tuple(METRICS),
+    sp = draw(G.specs(shapes=shapes, levels=(2, 2, 3), metrics=tuple(METRICS), allow_leak=True,
                       finite_tp=True, bound_pool=[2, 3, 4, 4, 6, 6, 8, 9, 12], max_ops=1500))
     if draw(st.booleans()):
         sp["mapper"]["max_fused_loops"] = draw(st.sampled_from([0, 1, 2, "inf"]))
